@@ -100,6 +100,10 @@ def gen(rng, tier):
     # revoked while accept() has been failing (EMFILE) for e retry rounds: the stop must not wait for a pause that
     # grew with the number of failures
     cases.append("acc 2 c F7")
+    # an upload with Expect: 100-continue whose handler is running when the permit is revoked and then asks for the body:
+    # 100 Continue, the body and the complete final response still go through (x = such a client, y<k> = its handler
+    # answers "get the body first")
+    cases += ["srv 2 x y0", "srv 2 x r y0", "srv 1 x r y0 c", "srv 2 c x r l0 y1", "srv 3 x x r y1 y0"]
     # stopping must not wait for the logger: a global logger whose queue is full and undrained is installed first
     cases += ["acc 2 c L r", "acc 1 L c c r c", "acc 3 L r"]
     if tier == "thorough":
